@@ -204,6 +204,7 @@ X5_TEMPLATES = [
     "set_variable('a', b)", "b = get_variable('a')", "b = get_variable('zz', 9)", "b = is_variable('a')", "unset_variable('a')",
     "set_variable('b', [get_variable('a')])", "b = get_variable('a', a)",
     "break", "b = undefined_var", "a = a", "b = a.length()", "b = a[0]",
+    "a = range(3)", "foreach i : a\n  b += [i]\nendforeach", "foreach i : a\n  if i == 1\n    break\n  endif\nendforeach",
 ]
 
 
